@@ -380,6 +380,19 @@ theorem jump_Tm_S (hs : Lawful Cs cs) (hl : Lawful Cl cl) (d : Data) (ok : d.Ok)
   · rw [e]; exact S_closed_form R Cs Cl Cg d' ok' r .s d.Tm P
   · exact jump_Tm_S_partial R Cs Cl Cg cs cl hs hl d' ok' r P
 
+/-- The `Tm` / `Hfus` setters keep the clause (fix C07-5): when the stored entropy of fusion is the derived one
+(`Hfus / Tm` of the values before the edit), after the edit it is `Hfus' / Tm'` — so `jump_Tm_S` applies to the edited
+chemical as well; a value set independently through the `Sfus` setter is left alone. -/
+theorem Sfus_follows_setters (h t h' t' : ℝ) (ht : t ≠ 0) (ht' : t' ≠ 0) :
+    sfusAfterEdit (realEnv R) (initSfus (realEnv R) (some h) (some t)) (some h) (some t) (some h') (some t') = some (h' / t') ∧
+    (∀ s : ℝ, s ≠ h / t →
+      sfusAfterEdit (realEnv R) (some s) (some h) (some t) (some h') (some t') = some s) := by
+  constructor
+  · simp [sfusAfterEdit, initSfus, truthy, realEnv, ht, ht']
+  · intro s hs
+    have : s - h / t ≠ 0 := sub_ne_zero.2 hs
+    simp [sfusAfterEdit, truthy, realEnv, ht, this]
+
 /-- the error branch ("raises iff"): a chemical WITHOUT an entropy of fusion (e.g. `Chemical.blank(…)` built without
 `Sfus`; before the fix: every database chemical) raises `TypeError` in exactly the entropy functors that cross the
 melting point from the reference phase, at every `T, P`. -/
